@@ -5,7 +5,11 @@ harness in the real ``schema`` plugin group (harness/qlib.py: 3 levels of inheri
 and major bumps, an auxiliary schema with an attachable child, a schema whose parent changes
 with the major version) plus two installed schemas; random histories of attach / detach /
 node create / delete / move / copy (with and without metadata) / re-open run through
-``MetadorContainer`` over both drivers (``h5py.File``, ``IH5Record``).  After every step:
+``MetadorContainer`` over both drivers (``h5py.File``, ``IH5Record``), plus targeted shapes
+(``gen_reuse_history``): move / copy / delete of a *group* whose descendants (depth 1-3) carry
+metadata, followed by re-creation of nodes at the old paths (same and other kind), attach /
+detach on the fresh nodes and on copies, a group moved / copied onto the path of a deleted
+group of the same shape.  After every step:
 outcome class, the nodes with their attached objects (schema release and stored value),
 ``keys()``, ``in`` / ``get`` / ``[]`` for every (schema, version) argument at every node, and
 ``node.metador.query`` for a seeded sample of (start node, schema, version) -- all arguments
@@ -24,7 +28,9 @@ Oracles on the code alone (no model):
       explicitly requested version;
   (c) a second object of the same schema name, an auxiliary schema, an unknown schema or
       version are refused and the raw dump is unchanged; an accepted attach reads back;
-  (d) the answers of (a),(b) immediately before closing and after re-opening are the same.
+  (d) the answers of (a),(b) immediately before closing and after re-opening are the same;
+  (e) the uuids of all stored objects in the raw dump are distinct (copies get fresh ones).
+On the last step every node is a start node for every schema in use (and its ancestors).
 """
 from __future__ import annotations
 
@@ -265,6 +271,99 @@ def gen_history(rng, nops: int, seed0: int = 0) -> List[list]:
     return ops
 
 
+def gen_reuse_history(rng, seed0: int = 0) -> List[list]:
+    """Move / copy / delete of a GROUP whose descendants (depth 1-3) carry metadata, then
+    re-creation of nodes at the old paths (same kind and the other kind), attach / detach on
+    the fresh nodes; mirror shape: a group is moved / copied onto the path of a deleted group
+    of the same shape.  (The per-node reads after every step touch `.meta` of every node.)"""
+    fam = [(n, v) for n, v, _p, aux, _r, _o in qlib.FAMILY if not aux]
+    seed = seed0
+    ops: List[list] = []
+    G = rng.choice(SEGS)
+    H = rng.choice([x for x in SEGS if x != G])
+    depth = rng.randint(1, 3)
+    sub: List[Tuple[List[str], bool]] = []          # below G: (relative path, is group)
+    rel: List[str] = []
+    for i in range(depth):
+        rel = rel + [rng.choice(SEGS)]
+        sub.append((list(rel), True if i < depth - 1 else rng.random() < 0.5))
+    if rng.random() < 0.6:
+        sib = rng.choice([x for x in SEGS if x != sub[0][0][0]])
+        sub.append(([sib], rng.random() < 0.4))
+
+    def build(root: str, with_meta: bool, flip: float = 0.0) -> List[Tuple[List[str], bool]]:
+        made = []
+        ops.append(["mk", [], root, True])
+        dead: List[List[str]] = []
+        for r, grp in sub:
+            if any(r[:len(x)] == x for x in dead):
+                continue
+            g2 = (not grp) if rng.random() < flip else grp
+            if not g2:
+                dead.append(r)
+            ops.append(["mk", [root] + r[:-1], r[-1], g2])
+            made.append(([root] + r, g2))
+        return made
+
+    def attach(p: List[str], ref=None):
+        nonlocal seed
+        seed += 1
+        ref = ref or rng.choice(fam)
+        ops.append(["attach", list(p), "cls", ref[0], list(ref[1]), ref[0], list(ref[1]), seed])
+        return ref
+
+    made = build(G, True)
+    had: Dict[Tuple[str, ...], List[qlib.Ref]] = {}
+    for p, _g in made + ([([G], True)] if rng.random() < 0.4 else []):
+        for _ in range(rng.choice([1, 1, 1, 2])):
+            if rng.random() < 0.8:
+                had.setdefault(tuple(p), []).append(attach(p))
+    if not had:
+        had.setdefault(tuple(made[0][0]), []).append(attach(made[0][0]))
+    mode = rng.choice(["move", "move", "copy", "copywm", "del", "mirror-move", "mirror-copy"])
+    if mode.startswith("mirror"):
+        # a group of the same shape without metadata at H (its empty listings get looked at), deleted,
+        # then G is moved / copied onto its path
+        save, sub2 = list(ops), sub
+        build(H, False)
+        ops.append(["del", [H]])
+        ops.append(["move", [G], [], H] if mode == "mirror-move" else ["copy", [G], [], H, False])
+        fresh_root = H
+        olds = [([H] + list(p[1:]), refs) for p, refs in had.items()]
+        for p, refs in olds[:2]:
+            ops.append(["detach", p, refs[0][0]])
+            attach(p, refs[0])
+    else:
+        if mode == "move":
+            ops.append(["move", [G], [], H])
+        elif mode in ("copy", "copywm"):
+            ops.append(["copy", [G], [], H, mode == "copywm"])
+        else:
+            ops.append(["del", [G]])
+        if mode in ("copy", "copywm"):
+            # old paths stay: work on the copies, then remove the original and re-create it
+            for p, refs in list(had.items())[:1]:
+                q = [H] + list(p[1:])
+                ops.append(["detach", q, refs[0][0]])
+                attach(q, refs[0])
+            ops.append(["del", [G]])
+        fresh = build(G, False, flip=0.35)
+        for p, _g in fresh[:3]:
+            refs = had.get(tuple(p), [])
+            if refs and rng.random() < 0.8:
+                ops.append(["detach", p, refs[0][0]])        # nothing there: must be refused
+                attach(p, refs[0])                            # same schema as the old object: must work
+                if rng.random() < 0.5:
+                    ops.append(["detach", p, refs[0][0]])
+            elif rng.random() < 0.5:
+                attach(p)
+    if rng.random() < 0.5:
+        ops.append(["reopen"])
+        p = rng.choice(made)[0]
+        attach(p)
+    return ops
+
+
 def pattern_histories() -> List[List[list]]:
     """Shapes the property and DESIGN §6 name explicitly."""
     A, B, Cc = "vq.aa", "vq.bb", "vq.cc"
@@ -287,6 +386,13 @@ def pattern_histories() -> List[List[list]]:
          ["attach", ["a", "d"], "cls", Cc, [1, 1, 0], Cc, [1, 1, 0], 9],
          ["copy", ["a"], [], "c", False], ["copy", ["a"], [], "d", True],
          ["move", ["a", "d"], ["c"], "b"], ["del", ["a"]], ["reopen"]],
+        # group move, then a new node at the old path of a descendant that carried metadata
+        [g, ds, ["attach", ["a", "d"], "cls", B, [1, 2, 0], B, [1, 2, 0], 20], ["move", ["a"], [], "b"],
+         g, ds, ["detach", ["a", "d"], B], ["attach", ["a", "d"], "cls", B, [2, 0, 0], B, [2, 0, 0], 21],
+         ["detach", ["b", "d"], B]],
+        # a release whose parent is not the newest release of the parent schema
+        [g, ["attach", ["a"], "cls", "vq.hh", [1, 0, 0], "vq.hh", [1, 0, 0], 22],
+         ["attach", [], "cls", "vq.gg", [1, 0, 0], "vq.gg", [1, 0, 0], 23], ["reopen"]],
         # refusals
         [g, ["attach", ["a"], "name", "vq.xx", None, "vq.xx", [1, 0, 0], 10],
          ["attach", ["a"], "cls", A, [2, 0, 0], A, [2, 0, 0], 11],
@@ -391,6 +497,16 @@ def raw_objects(dump: Dict[str, Any]) -> Dict[str, List[Tuple[str, qlib.Ver, Dic
     return out
 
 
+def raw_uuids(dump: Dict[str, Any]) -> List[str]:
+    """uuid of every stored metadata object (from the object names in the raw dump)."""
+    out = []
+    for name in dump:
+        segs = name.split("/")
+        if len(segs) >= 3 and segs[-2].startswith(META_PREF) and segs[1] != "metador_container" and "=" in segs[-1]:
+            out.append(segs[-1].split("=")[1])
+    return out
+
+
 def user_nodes(dump: Dict[str, Any]) -> Dict[str, bool]:
     return {n: (v == "G") for n, v in dump.items()
             if not any(s.startswith("metador_") for s in n.split("/"))}
@@ -407,7 +523,7 @@ def observe(env: Dict[str, Any], sample: List[Tuple[str, int]]) -> Dict[str, Any
     m, raw = env["m"], env["raw"]
     dump = qlib.dump_raw(raw)
     nodes = user_nodes(dump)
-    obs: Dict[str, Any] = {"nodes": {}, "raw_objs": raw_objects(dump), "queries": {}}
+    obs: Dict[str, Any] = {"nodes": {}, "raw_objs": raw_objects(dump), "queries": {}, "uuids": raw_uuids(dump)}
     obs["raw_sig"] = sorted((k, v if isinstance(v, str) else v.decode("latin-1")) for k, v in dump.items())
     view_names = ["/"]
     m.visititems(lambda n, o: view_names.append("/" + n.strip("/")) or None)
@@ -473,6 +589,9 @@ def oracle_step(obs: Dict[str, Any]) -> List[dict]:
     bad: List[dict] = []
     raw_objs = obs["raw_objs"]
     names = sorted(obs["nodes"])
+    if len(set(obs["uuids"])) != len(obs["uuids"]):
+        dup = sorted(u for u in set(obs["uuids"]) if obs["uuids"].count(u) > 1)
+        bad.append({"kind": "uuid-dup", "uuids": dup[:3], "sig": {"kind": "uuid-dup"}})
     # (a) queries against the raw dump
     for key, got in obs["queries"].items():
         start, qi = key.split("|")
@@ -609,11 +728,17 @@ def run_history(task: Dict[str, Any]) -> Dict[str, Any]:
                     if task.get("all_queries"):
                         sample = None
                     elif last:
-                        # every node as start with a few arguments, the root with more
+                        # every node as start with a few arguments, the root with more ...
                         sample = [(n, qi) for n in names for qi in rng.sample(range(len(QARGS)), min(nq // 2, len(QARGS)))]
                         sample += [("/", qi) for qi in rng.sample(range(len(QARGS)), min(2 * nq, len(QARGS)))]
+                        # ... and every schema in use (or an ancestor of one), by name, from every node
+                        rel = {a[0] for objs in prev["raw_objs"].values() for on, ov, _ in objs
+                               for a in (chain((on, ov)) if (on, ov) in set(all_releases()) else [(on, ov)])}
+                        sample += [(n, qi) for n in names for qi, (qs, qv) in enumerate(QARGS) if qv is None and qs in rel]
                     else:
                         sample = [(rng.choice(names + ["/"]), rng.randrange(len(QARGS))) for _ in range(nq)]
+                    if sample is not None and task.get("focus"):
+                        sample = sample + [(n, qi) for n in names + ["/"] for qi in task["focus"]]
                     pre_obs = None
                     if op[0] == "reopen":
                         sample = sample if sample is not None else [(n, qi) for n in names for qi in range(len(QARGS))]
@@ -632,6 +757,7 @@ def run_history(task: Dict[str, Any]) -> Dict[str, Any]:
                         d0 = qlib.dump_raw(env["raw"])
                         new = [n for n in sorted(user_nodes(d0)) if n not in names]
                         sample += [(n, qi) for n in new for qi in rng.sample(range(len(QARGS)), min(nq // 2, len(QARGS)))]
+                        sample += [(n, qi) for n in new for qi, (qs, qv) in enumerate(QARGS) if qv is None and qs in rel]
                     obs = observe(env, sample)
                     viol = oracle_step(obs) + oracle_refusal(op, cls, prev, obs)
                     if pre_obs is not None:
@@ -688,8 +814,12 @@ def compare_with_model(ops: List[list], mres: list, got: Dict[str, Any]) -> List
             icls = "fail"
         if mr == "badpath":
             want_cls = "fail"
-        if op[0] == "del" and mr == "nonode":
+        if mr == "nonode":
+            # a missing node: KeyError, or ValueError when the path runs into a dataset (driver
+            # difference, property C09) -- any refusal will do
             want_cls = "fail"
+            if icls != "ok":
+                icls = "fail"
         if icls != want_cls:
             dis.append({**where, "what": "outcome", "model": mr, "impl": istep["cls"], "err": istep["err"]})
             break
@@ -780,19 +910,32 @@ def sanitize(ops: List[list], mres: list) -> bool:
 
 # ---------------------------------------------------------------------------- shrinking
 
-def _viol_kinds(ops, drv):
-    r = run_history({"ops": ops, "drv": drv, "nq": 0, "limit": 120})
+def _focus_of(v: Optional[dict]) -> List[int]:
+    """Index of the query argument a recorded query violation is about."""
+    if v and v.get("kind") in ("query", "reopen-query"):
+        try:
+            if v["kind"] == "query":
+                ver = tuple(v["version"]) if v.get("version") is not None else None
+                return [QARGS.index((v["schema"], ver))]
+            return [int(v["query"].split("|")[1])]
+        except (ValueError, KeyError, IndexError):
+            return []
+    return []
+
+
+def _viol_kinds(ops, drv, focus=()):
+    r = run_history({"ops": ops, "drv": drv, "nq": 0, "limit": 120, "focus": list(focus)})
     if r["error"]:
         return []
     return r["viol"]
 
 
 def w_shrink(job) -> list:
-    ops, drv, sig = job
+    ops, drv, sig, focus = job
 
     def fails(cand):
         try:
-            return any(v["sig"] == sig for v in _viol_kinds(cand, drv))
+            return any(v["sig"] == sig for v in _viol_kinds(cand, drv, focus))
         except Exception:  # noqa: BLE001
             return False
 
@@ -839,11 +982,14 @@ def run(ctx: vlib.Ctx):
         "harness-registered schema family in the live `schema` plugin group with a fabricated providing package "
         "(harness/qlib.py); nothing is written to /repo",
     ]
-    n_hist = ctx.budget(36, 280)
+    n_hist = ctx.budget(22, 200)
     n_ops = ctx.budget(10, 14)
     hists = pattern_histories()
     for i in range(n_hist):
         hists.append(gen_history(ctx.rng, n_ops + ctx.rng.randrange(0, 6), seed0=100 * (i + 1)))
+    n_reuse = ctx.budget(12, 120)
+    for i in range(n_reuse):
+        hists.append(gen_reuse_history(ctx.rng, seed0=100 * (n_hist + i + 1)))
     # corpus of recorded violations is run first
     corpus = []
     for f in sorted((vlib.VERIF / "corpus" / "C07").glob("*.json")) if (vlib.VERIF / "corpus" / "C07").exists() else []:
@@ -919,10 +1065,10 @@ def run(ctx: vlib.Ctx):
             if key not in reported or len(h) < len(reported[key]["ops"]):
                 reported[key] = {"ops": h, "drv": task["drv"], "viol": v}
     # shrink and report each distinct oracle failure
-    jobs = [(x["ops"], x["drv"], x["viol"]["sig"]) for x in reported.values()]
+    jobs = [(x["ops"], x["drv"], x["viol"]["sig"], _focus_of(x["viol"])) for x in reported.values()]
     smalls = vlib.pmap(w_shrink, jobs) if jobs else []
     for (key, x), small in zip(reported.items(), smalls):
-        vs = [v for v in _viol_kinds(small, x["drv"]) if v["sig"] == x["viol"]["sig"]] or [x["viol"]]
+        vs = [v for v in _viol_kinds(small, x["drv"], _focus_of(x["viol"])) if v["sig"] == x["viol"]["sig"]] or [x["viol"]]
         v = vs[0]
         what = describe(v)
         ctx.violation(what, {"kind": v["kind"], "ops": small, "drv": x["drv"], "violation": v, "qargs_index": "harness/props/c07.py QARGS"},
@@ -1004,7 +1150,8 @@ def replay(rep) -> int:
     want = (rep.get("violation") or {}).get("sig")
     bad = 0
     for drv in drvs:
-        r = run_history({"ops": rep["ops"], "drv": drv, "nq": 0, "limit": 300})
+        r = run_history({"ops": rep["ops"], "drv": drv, "nq": 0, "limit": 300,
+                         "focus": _focus_of(rep.get("violation"))})
         if r["error"]:
             print(drv, "run failed:", r["error"])
             bad = 1
